@@ -10,6 +10,7 @@ package vsched
 
 import (
 	"fmt"
+	"runtime"
 	"sync"
 )
 
@@ -21,6 +22,7 @@ type thread struct {
 	cond    func() bool // non-nil: parked until the predicate holds
 	daemon  bool        // spawned by the code under test (go statement)
 	body    func()
+	dead    chan struct{} // closed when the goroutine has gone
 }
 
 // Choice records one scheduling decision: Opts enabled alternatives, Pick chosen.
@@ -55,7 +57,19 @@ var (
 	// Fine enables the statement-level scheduling points (Plain) of the hunt build.
 	Fine        bool
 	atomicDepth int
+	// killing: the run is over and the goroutines still parked are being
+	// unwound one at a time (runtime.Goexit); every scheduler entry point is a
+	// no-op meanwhile, so their deferred calls cannot touch the next run.
+	killing bool
 )
+
+// parkOn parks the calling thread; a thread woken up after the end of the run unwinds.
+func parkOn(t *thread) {
+	<-t.wake
+	if killing {
+		runtime.Goexit()
+	}
+}
 
 // Active reports whether a controlled run is in progress.
 func Active() bool { return active }
@@ -227,7 +241,7 @@ func switchTo(me, next *thread) {
 	cur = next
 	next.wake <- struct{}{}
 	if me != nil && !me.done {
-		<-me.wake
+		parkOn(me)
 	}
 }
 
@@ -267,12 +281,15 @@ func stuck(me *thread) {
 	}
 	closeFinished()
 	if me != nil && !me.done {
-		<-me.wake // parked for good (leaked)
+		parkOn(me) // parked until the run is torn down
 	}
 }
 
 // Block parks the current thread until Unblock(obj); used by the lock shims.
 func Block(obj interface{}) {
+	if killing {
+		return
+	}
 	me := cur
 	me.blocked = obj
 	next := pick(me)
@@ -296,6 +313,9 @@ func Unblock(obj interface{}) {
 // true and no other thread has run since it was evaluated (the caller performs
 // its action atomically and logs it itself).
 func WaitUntilQuiet(cond func() bool) {
+	if killing {
+		return
+	}
 	if !active || atomicDepth > 0 {
 		if !cond() {
 			panic("vsched: operation would block outside a controlled run")
@@ -334,9 +354,19 @@ func closeFinished() {
 }
 
 func launch(t *thread) {
+	t.dead = make(chan struct{})
 	go func() {
+		defer close(t.dead)
 		<-t.wake
+		if killing {
+			return
+		}
 		defer func() {
+			if killing {
+				recover()
+				t.done = true
+				return
+			}
 			if r := recover(); r != nil {
 				if _, ok := r.(abortPanic); !ok && Aborted == "" {
 					Aborted = fmt.Sprintf("panic in thread %d: %v", t.id, r)
@@ -367,6 +397,9 @@ func launch(t *thread) {
 // Go is the `go` statement of the code under test: a new controlled (daemon)
 // thread; outside a controlled run the body is kept until the next Run starts.
 func Go(f func()) {
+	if killing {
+		return
+	}
 	if !active {
 		pending = append(pending, f)
 		return
@@ -403,6 +436,35 @@ func Run(bodies []func(), forced []int) []Choice {
 	<-finished
 	active = false
 	return Trace
+}
+
+// Reap unwinds, one at a time, every goroutine of the finished run that is
+// still parked (blocked threads, idle workers, threads cut by an abort), so
+// that long explorations do not accumulate goroutines. The driver calls it once
+// it has read everything it reports about the finished run (their deferred
+// calls still change the state of the objects under test).
+func Reap() {
+	mu.Lock()
+	defer mu.Unlock()
+	killing = true
+	saved := Aborted
+	for i := 0; i < len(threads); i++ {
+		t := threads[i]
+		select {
+		case <-t.dead:
+			continue
+		default:
+		}
+		if !t.done {
+			select {
+			case t.wake <- struct{}{}:
+			default:
+			}
+		}
+		<-t.dead
+	}
+	Aborted = saved
+	killing = false
 }
 
 // DropPending forgets go statements executed outside a run (scenario set-up that is discarded).
